@@ -105,6 +105,19 @@ fn run_scenario(sc: &Value) {
                                 let _ = open_coroutine_core::syscall::usleep(None, (sleep_ms * 1000) as u32);
                                 rec(json!({"ev": "sleep_e", "task": t}));
                             }
+                            "recvwait" => {
+                                // a hooked recv on an idle socket with a receive timeout: the coroutine is parked
+                                let mut fds = [0i32; 2];
+                                unsafe {
+                                    libc::socketpair(libc::AF_UNIX, libc::SOCK_STREAM, 0, fds.as_mut_ptr());
+                                    let tv = libc::timeval { tv_sec: (sleep_ms / 1000) as i64, tv_usec: ((sleep_ms % 1000) * 1000) as i64 };
+                                    libc::setsockopt(fds[0], libc::SOL_SOCKET, libc::SO_RCVTIMEO, std::ptr::from_ref(&tv).cast(), size_of::<libc::timeval>() as u32);
+                                }
+                                let mut buf = [0u8; 8];
+                                rec(json!({"ev": "sleep_b", "task": t}));
+                                let r = open_coroutine_core::syscall::recv(None, fds[0], buf.as_mut_ptr().cast(), 8, 0);
+                                rec(json!({"ev": "sleep_e", "task": t, "ret": r}));
+                            }
                             "panic" => panic!("p{t}"),
                             _ => {}
                         }
